@@ -1,6 +1,6 @@
 #!/bin/bash
 # Real-code demonstrations of the genuine defects found by the contract checks (DESIGN.md §8).
-# usage: demo.sh <xcp-binary> <F1|F2|F3|F5|F6>      exit 0 = behaviour correct, exit 1 = defect shown
+# usage: demo.sh <xcp-binary> <F1|F2|F3|F4|F5|F6>      exit 0 = behaviour correct, exit 1 = defect shown
 X=$1; WHICH=$2
 D=$(mktemp -d /tmp/xcpdemo.XXXXXX); trap 'rm -rf "$D"' EXIT; cd "$D" || exit 2
 case "$WHICH" in
@@ -33,5 +33,11 @@ F6) # chown after chmod drops set-ID bits (needs root)
     chmod 4755 s; "$X" --ownership s s2 >/dev/null 2>&1; rc=$?
     if [ $rc -eq 0 ] && [ "$(stat -c %a s2)" != "4755" ]; then echo "DEFECT F6: mode 4755 copied as $(stat -c %a s2)"; exit 1; fi
     echo "F6 ok (rc=$rc)"; exit 0;;
+F4) # finalisation errors are only logged (Drop): injected EIO on fchmod -> exit 0 with the wrong mode
+    command -v strace >/dev/null || { echo "F4 skipped: no strace"; exit 0; }
+    printf hi > a; chmod 600 a
+    strace -f -o /dev/null -e trace=fchmod -e inject=fchmod:error=EIO "$X" a b >/dev/null 2>&1; rc=$?
+    if [ $rc -eq 0 ] && [ "$(stat -c %a b)" != "600" ]; then echo "DEFECT F4: fchmod failed with EIO, exit 0, mode 600 copied as $(stat -c %a b)"; exit 1; fi
+    echo "F4 ok (rc=$rc)"; exit 0;;
 *) echo "unknown finding $WHICH"; exit 2;;
 esac
